@@ -275,7 +275,7 @@ func runProxy(sc proxyScen, idx int) (*proxyTrace, error) {
 	}
 	var h *l4proxy.Handler
 	var compiled layer4.Handler
-	if sc.Via == "route" || sc.Via == "route2" || sc.Via == "throttle" {
+	if sc.Via == "route" || sc.Via == "route2" || sc.Via == "throttle" || sc.Via == "pp" {
 		hj := map[string]any{"handler": "proxy"}
 		for k, v := range hcfg {
 			hj[k] = v
@@ -284,6 +284,10 @@ func runProxy(sc proxyScen, idx int) (*proxyTrace, error) {
 		if sc.Via == "throttle" {
 			// the shipped throttle handler without limits in front: the proxy's downstream is a wrapped connection
 			routes = []map[string]any{{"handle": []map[string]any{{"handler": "throttle"}, hj}}}
+		}
+		if sc.Via == "pp" {
+			// the shipped proxy_protocol handler in front: it consumes the header the client sends first and wraps the connection
+			routes = []map[string]any{{"handle": []map[string]any{{"handler": "proxy_protocol"}, hj}}}
 		}
 		if sc.Via == "route2" {
 			// two-stage routing: a matched non-terminal route first, then the proxy's route, which needs more bytes
@@ -408,6 +412,10 @@ func runProxy(sc proxyScen, idx int) (*proxyTrace, error) {
 	go func() {
 		defer close(writerDone)
 		rest := cstream[pre:]
+		if sc.Via == "pp" {
+			// not part of the client's stream: the proxy_protocol handler strips it
+			cc.Write([]byte("PROXY TCP4 203.0.113.7 198.51.100.9 40000 443\r\n"))
+		}
 		if (sc.Via == "route" || sc.Via == "route2") && len(rest) > 4 {
 			// the first segment ends inside the bytes the route's matcher needs
 			n, _ := cc.Write(rest[:4])
